@@ -73,7 +73,7 @@ def bufSpec : Spec :=
 
 instance : Framed bufSpec where
   frame := by
-    intro s s' ⟨h1, h2, _, _, _, _⟩ hI
+    intro s s' ⟨h1, h2, _, _, _, _, _⟩ hI
     refine ⟨⟨?_, ?_⟩, trivial⟩
     · rw [h1, h2]; exact hI.1
     · rw [h1, h2]; exact hI.2
